@@ -4,7 +4,7 @@ From Coq Require Import List NArith String.
 Import ListNotations.
 Open Scope string_scope.
 
-(* must equal Generated.MoreSites.more_fns (obligation C03_fact_more_sites) *)
+(* Generated.more_fns of the pinned tree, as reviewed; the obligation compares the keys at the end of this file *)
 Definition more_fns_classified : list (string * string * list string * N * N * list string) :=
   [ ("analysis/node.rs", "split", [], 0%N, 0%N, ["self.begin() as u16"; "self.end() as u16"]);
     ("analysis/node.rs", "next", ["self.splits[idx]"], 1%N, 0%N, ["char_end as u16"; "byte_end as u16"]);
@@ -41,3 +41,24 @@ Definition more_site_status : list (string * string * string * string) :=
      "proved for certified arrays: C03_trie_reader_no_index_panic (= C04_traverse_in_bounds); NOT for every array the loader accepts: finding c03_damaged_dictionary");
     ("dic/lexicon/trie.rs", "next", "self.data.get(i).unwrap()", "proved by the loop range i in offset..data.len()");
     ("dic/lexicon/word_id_table.rs", "entries", "2 debug_asserts + raw pointer reads", "proved for tables written by the builder at recorded offsets: C03_wid_table_reader_no_index_panic (= C04_wid_table_roundtrip); NOT for every table the loader accepts: finding c03_damaged_dictionary") ].
+
+(* The classified constructs as keys (gen/sitekeys.py), per function: Generated.MoreSites.more_site_keys has to stay WITHIN this table
+   (obligation C03_fact_more_sites: Proofs/SiteCover.covered).  A construct that disappears from the code, or an index /
+   cast operand spelled differently, leaves the obligation closed; a new construct or one more of a kind re-opens it.
+   The table `more_fns_classified` above is the reviewed inventory with the full expressions of the pinned tree (what the site-status
+   table talks about); Generated/MoreSites.v still lists the current expressions next to the keys. *)
+Definition more_keys_classified : list (string * list string) :=
+  [ ("analysis/node.rs:split", ["cast:u16"; "cast:u16"]);
+    ("analysis/node.rs:next", ["cast:u16"; "cast:u16"; "idx:self.splits[i]"; "unwrap"]);
+    ("analysis/node.rs:concat_nodes", ["cast:u16"; "cast:u16"; "idx:path[i]"; "idx:path[i]"; "idx:path[i]"; "idx:path[i]"; "idx:path[i]"; "idx:path[i]"; "idx:path[i]"; "idx:path[i]"; "idx:path[i]"; "idx:path[r]"; "idx:path[r]"]);
+    ("analysis/node.rs:concat_oov_nodes", ["cast:u16"; "cast:u16"; "idx:path[i]"; "idx:path[i]"; "idx:path[i]"; "idx:path[i]"; "idx:path[i]"; "idx:path[i]"; "idx:path[i]"; "idx:path[i]"; "idx:path[r]"]);
+    ("analysis/stateless_tokenizer.rs:split_path", []);
+    ("input_text/buffer/edit.rs:resolve_edits", ["idx:source[r]"; "idx:source[r]"; "idx:source_mapping[r]"; "idx:source_mapping[r]"]);
+    ("input_text/buffer/edit.rs:add_replace", ["idx:source_mapping[i]"; "idx:source_mapping[i]"]);
+    ("input_text/buffer/mod.rs:build", ["idx:self.mod_bow[i]"]);
+    ("input_text/buffer/mod.rs:fill_cat_continuity", ["idx:self.mod_cat[i]"; "idx:self.mod_cat[i]"; "idx:self.mod_cat_continuity[i]"]);
+    ("input_text/buffer/mod.rs:fill_orig_b2c", ["idx:self.m2o_2[i]"; "idx:self.m2o_2[i]"]);
+    ("input_text/buffer/mod.rs:commit", []);
+    ("dic/lexicon/trie.rs:next", ["unwrap"]);
+    ("dic/lexicon/trie.rs:common_prefix_iterator", []);
+    ("dic/lexicon/word_id_table.rs:entries", []) ].
